@@ -664,12 +664,14 @@ impl Run<'_> {
 
     fn canon(&self) -> String {
         if let Some(k) = &self.corrupt {
-            return format!("diverged:{k}");
+            return format!("batch={} pallas_agency={} | diverged:{k}", self.cfg.max_roll_forwards, self.cfg.pallas_agency);
         }
         let t = read_tables(&self.db);
         let s = self.server.lock().unwrap();
         format!(
-            "chain[{}] next_branch={} armed={:?} follower={:?} | db blocks[{}] tx={:x} roots={:x}/{} legacy={:x}/{} | lpp={:?} pruned={}",
+            "batch={} pallas_agency={} | chain[{}] next_branch={} armed={:?} follower={:?} | db blocks[{}] tx={:x} roots={:x}/{} legacy={:x}/{} | lpp={:?} pruned={}",
+            self.cfg.max_roll_forwards,
+            self.cfg.pallas_agency,
             rle(s.chain.iter().map(|b| (b.number, b.branch))),
             s.next_branch,
             s.armed_fork,
@@ -869,13 +871,13 @@ pub fn run(ctx: &Ctx) -> ! {
     let configs: Vec<(Cfg, usize)> = if quick {
         vec![
             (Cfg { max_roll_forwards: 3, pallas_agency: false }, 3),
-            (Cfg { max_roll_forwards: 100, pallas_agency: true }, 2),
+            (Cfg { max_roll_forwards: 100, pallas_agency: true }, 3),
             (Cfg { max_roll_forwards: 1, pallas_agency: true }, 2),
         ]
     } else {
         vec![
             (Cfg { max_roll_forwards: 3, pallas_agency: false }, 4),
-            (Cfg { max_roll_forwards: 100, pallas_agency: true }, 3),
+            (Cfg { max_roll_forwards: 100, pallas_agency: true }, 4),
             (Cfg { max_roll_forwards: 1, pallas_agency: true }, 3),
             (Cfg { max_roll_forwards: 100, pallas_agency: false }, 3),
         ]
